@@ -15,6 +15,20 @@ CLAIMED = {
         "Trusted: clang front end, documented CPython/OpenSSL API extents (table in sa/cbounds.py, rules/c04.py), LP64 no-wrap assumption, y# lengths <= 2^31-1 for _crypto. Contents of memory are not tracked (only extents).",
         "DESIGN.md#c04",
     ),
+    "C11": (
+        "other",
+        "exhaustive abstract evaluation of the TLS dispatcher over State x HandshakeType against an RFC 8446 reference automaton; transition-graph extraction; typestate reachability; CFG dominance of authenticating comparisons over key releases",
+        "All 13x13 (state, message type) pairs of the dispatcher are evaluated and compared with the reference automaton (exhaustive, finite); the transition graph, the writers of the skip-certificate flag and the dominance of Finished/binder/signature checks over key releases and transitions are decided on the CFG for all paths. This covers the SMACK-style skip attacks structurally rather than by enumeration of adversarial flights.",
+        "Reference automaton transcribed by hand from RFC 8446; guards are matched after normalisation and inlining of single-definition locals; exception edges are over-approximated (sound for dominance).",
+        "DESIGN.md#c11",
+    ),
+    "C03": (
+        "other",
+        "CFG dominance / post-dominance and def-use queries over tls.py and connection.py: verification dominates progress, transcript coverage with affine slice tiling, transport-parameter authentication guards, negotiate() totality",
+        "Decides necessary structural conditions of authentication for every path: signature/certificate/Finished/binder checks dominate what they authorise and their failures raise; every dispatched message is hashed whole; every pushed message is inside push_message; CID/version comparisons guard raises. Equality of the two endpoints' secrets is declined.",
+        "Third-party verification primitives are trusted to raise as documented; name-based receiver resolution inside tls.Context.",
+        "DESIGN.md#c03",
+    ),
 }
 
 NOT_APPLICABLE = {
